@@ -355,6 +355,8 @@ void vf_cpu_disarm(void) {
 /* ---- sanitizer attribution ---------------------------------------------- */
 void __asan_on_error(void);
 void __asan_on_error(void) { vf_asan_hits++; }
+void __ubsan_on_report(void);
+void __ubsan_on_report(void) { vf_asan_hits++; }   /* gcc prints UBSan reports to stderr (captured per shard) */
 
 bool vf_san_poll(void) {
     bool hit = false;
